@@ -201,3 +201,76 @@ pub fn timeout_at<F: Future>(deadline: Instant, fut: F) -> Timeout<F> {
         sleep: sleep_until(deadline),
     }
 }
+
+// ---------------------------------------------------------------- interval (API completeness)
+
+#[derive(Debug, Clone, Copy, PartialEq, Eq, Default)]
+pub enum MissedTickBehavior {
+    #[default]
+    Burst,
+    Delay,
+    Skip,
+}
+
+/// `tokio::time::interval` on the simulated clock
+#[derive(Debug)]
+pub struct Interval {
+    next: u64,
+    period: u64,
+    behavior: MissedTickBehavior,
+    sleep: Option<Pin<Box<Sleep>>>,
+}
+
+pub fn interval(period: Duration) -> Interval {
+    interval_at(Instant::now(), period)
+}
+
+pub fn interval_at(start: Instant, period: Duration) -> Interval {
+    assert!(period > Duration::ZERO, "`period` must be non-zero.");
+    Interval {
+        next: start.ns,
+        period: dur_ns(period).max(1),
+        behavior: MissedTickBehavior::Burst,
+        sleep: None,
+    }
+}
+
+impl Interval {
+    pub async fn tick(&mut self) -> Instant {
+        std::future::poll_fn(|cx| self.poll_tick(cx)).await
+    }
+    pub fn poll_tick(&mut self, cx: &mut Context<'_>) -> Poll<Instant> {
+        let next = self.next;
+        let s = self.sleep.get_or_insert_with(|| Box::pin(sleep_until(Instant { ns: next })));
+        match s.as_mut().poll(cx) {
+            Poll::Pending => Poll::Pending,
+            Poll::Ready(()) => {
+                self.sleep = None;
+                let now = kernel::now_ns();
+                let fired = self.next;
+                self.next = match self.behavior {
+                    MissedTickBehavior::Burst => fired.saturating_add(self.period),
+                    MissedTickBehavior::Delay => now.saturating_add(self.period),
+                    MissedTickBehavior::Skip => {
+                        let behind = now.saturating_sub(fired);
+                        fired.saturating_add((behind / self.period + 1) * self.period)
+                    }
+                };
+                Poll::Ready(Instant { ns: fired })
+            }
+        }
+    }
+    pub fn reset(&mut self) {
+        self.sleep = None;
+        self.next = kernel::now_ns().saturating_add(self.period);
+    }
+    pub fn period(&self) -> Duration {
+        Duration::from_nanos(self.period)
+    }
+    pub fn missed_tick_behavior(&self) -> MissedTickBehavior {
+        self.behavior
+    }
+    pub fn set_missed_tick_behavior(&mut self, b: MissedTickBehavior) {
+        self.behavior = b;
+    }
+}
